@@ -8,13 +8,29 @@ MC_NOTE = ("Assumes: TLC 1.8 / SANY / CommunityModules Json+IOUtils, rustc/cargo
            "lexers and flattener (harness/src), the python driver, the f32 tolerance rule of DESIGN.md section 3 "
            "(no property is decided at f32 rounding accuracy) and the small-scope bounds stated in the evidence file.")
 
+BOTH = (" TLC enumerates the cases on a small lattice (exhaustive within the stated value sets) and checks the property on the "
+        "specification itself; every enumerated case is replayed on the real library and TLC validates the recorded trace, evaluating the "
+        "property's predicates (written in TLA+) at every event; shipped files and seeded random buildings extend the traces beyond the lattice.")
+
 CHECKS = {
+ "C01": dict(text="Bounded model checking of the balance specification against the abstract conservation specification P_C01 plus trace validation of every per-step flow of the real library against P_C01." + BOTH,
+   design="5/C01", technique="TLA+ abstract spec P_C01 + TLC (MC_C02!Conservation) + trace validation of per-step flows"),
  "C02": dict(
    text="Bounded exhaustive model checking of the TLA+ balance specification (spec/Balance.tla: an independent exact-rational "
         "evaluation of EN ISO 52000-1 (2),(9)-(14),(20)-(28),(32)) over a lattice of buildings, with every TLC-enumerated case "
         "replayed on the real library and every numeric field of the returned EnergyPerformance validated by TLC against the "
         "specification (trace validation, both binding directions). Exhaustive within the lattice, sampled (shipped files) beyond it.",
    design="5/C02", technique="TLA+ spec (exact rationals) + TLC enumeration + trace validation of energy_performance results"),
+ "C03": dict(text="Session histories of five evaluations at different k_exp: exact affine identity checked by TLC on the specification (MC_C02!CheckK) and, on traces of the real library, on every step-B path." + BOTH,
+   design="5/C03", technique="TLA+ history spec (SetKexp) + TLC invariant CheckK + trace validation of k_exp histories"),
+ "C04": dict(text="The aggregation schema (every path of Balance = sum of per-carrier paths; breakdowns; per-m2 = absolute / area) is data of the TLA+ trace specification and is checked by TLC on every path of every recorded evaluation, over histories with four areas." + BOTH,
+   design="5/C04", technique="TLA+ aggregation schema + trace validation of every Balance path over area histories"),
+ "C12": dict(text="Abstract specification P_C12 (priority of on-site over cogenerated electricity, formula (32), effect of load matching) checked by TLC on the specification (MC_C02!CheckPrio) and on two-evaluation histories (load matching off/on) of the real library." + BOTH,
+   design="5/C12", technique="TLA+ abstract spec P_C12 + TLC invariant CheckPrio + trace validation of off/on histories"),
+ "C13": dict(text="RER is a proper fraction and perimeters are nested: TLC invariant MC_C02!CheckRer on the specification (perimeter formulas as implemented, two named known-finding weakenings) and the same predicates evaluated by TLC on every recorded evaluation with regulatory factors at k_exp = 0." + BOTH,
+   design="5/C13", technique="TLC invariant CheckRer + trace validation of rer / rer_nrb / rer_onst"),
+ "C14": dict(text="Session histories Evaluate ; AddPv(delta) ; Evaluate: TLC enumerates buildings x increments (MC_C14, regulatory sets), checks monotonicity exactly on the specification and the pairs are replayed on the real library and judged by TLC (Trace_C14)." + BOTH,
+   design="5/C14", technique="TLA+ history spec (AddPv) + TLC invariant CheckMono + trace validation of pairs"),
 }
 
 def main():
